@@ -38,12 +38,23 @@ def check(idx: Index, rep: Report, tier: str) -> str:
     wl_defs = [unparse(s_.value.func.value) for s_ in walk_local(f.node) if isinstance(s_, ast.Assign) and len(s_.targets) == 1 and unparse(s_.targets[0]) == opv and isinstance(s_.value, ast.Call) and call_attr(s_.value) in ("popleft", "pop") and isinstance(s_.value.func, ast.Attribute)]
     wl = wl_defs[0] if wl_defs else "worklist"
     need = {f"is_side_effect_free({opv})", f"is_speculatable({opv})", f"can_be_hoisted({opv}, {p_region})"}
+    # what is known on every feasible path of the loop body that reaches the move (path summaries: flags set by an inlined
+    # predicate helper, guard clauses and compound conditions read alike)
+    from ..paths import enum_paths as _ep16, loops_of as _lo16
+
+    path_have: dict[int, set[str]] = {}
+    for lp_ in _lo16(_ep16(f.node)):
+        for pth in lp_.body:
+            if not pth.feasible():
+                continue
+            for k_, e_ in enumerate(pth.effects):
+                if isinstance(e_, ast.Expr) and isinstance(e_.value, ast.Call) and any(e_.value is m_ for m_ in moves):
+                    recv = pth.res(ast.Name(id=opv, ctx=ast.Load()), k_)
+                    pos = {re.sub(r"^bool\((.*)\)$", r"\1", t_).replace(recv, opv) for t_, p_ in pth.nfacts() if p_}
+                    cur = path_have.get(id(e_.value))
+                    path_have[id(e_.value)] = pos if cur is None else (cur & pos)
     for c in moves:
-        have = {unparse(t) for t, p in guard_facts(f.node, c) if p}
-        # the guard is written as `if not (a and b and c): continue`
-        for t, p in guard_facts(f.node, c):
-            if not p and isinstance(t, ast.BoolOp):
-                pass
+        have = {unparse(t) for t, p in guard_facts(f.node, c) if p} | path_have.get(id(c), set())
         miss = need - have
         inst = f"{f.fq}:{unparse(c.func)}"
         if miss:
@@ -79,6 +90,7 @@ def check(idx: Index, rep: Report, tier: str) -> str:
                 if not d_.unknown and len(d_.adds) == 1 and re.fullmatch(r"\w+\.operation", d_.adds[0].elem) and any(re.fullmatch(rf"\w+\.operation\.parent_region\(\) == {reg}", t_) and p_ for t_, p_ in d_.adds[0].facts) and [it for _, it in d_.adds[0].iters] == [f"{opv}.results", d_.adds[0].iters[0][0] + ".uses"]:
                     requeue = True
     skips = any((f"{opv}.parent_region() == {reg}", False) in norm_facts(text_facts(f.node, n_)) for n_ in walk_local(f.node) if isinstance(n_, ast.Continue)) or all((f"{opv}.parent_region() == {reg}", True) in norm_facts(text_facts(f.node, c)) for c in moves)
+    skips = skips or all(f"{opv}.parent_region() == {reg}" in path_have.get(id(c), set()) for c in moves)
     if requeue and skips:
         r.ok(f.fq + ":worklist", f"{f.loc} users of hoisted ops re-examined; already moved ops skipped")
     else:
